@@ -245,14 +245,48 @@ func (o *PipelineOracle) checkTeardown(w *World, pi int, old *Conn) {
 	// loop-detection contribution: only checked through behaviour (see C07 profile: a path
 	// with the local ASN must be accepted again once no session contributes that ASN) - the
 	// refcount itself is read through the public VRF API.
-	anyEst := false
+	// Exact expectation at this quiescent point: an ASN / cluster ID contributes iff some
+	// Established session brought it in (the session's local ASN; the cluster ID of a
+	// route-reflector-client session).
+	dut := w.Plan.DUT
+	wantASN := map[uint32]bool{dut.LocalAS: false}
+	cidOf := dut.ClusterID
+	if cidOf == 0 {
+		cidOf = dut.RouterID
+	}
+	wantCID := map[uint32]bool{cidOf: false, dut.RouterID: false}
 	for _, q := range w.Peers {
+		las := q.Cfg.LocalAS
+		if las == 0 {
+			las = dut.LocalAS
+		}
+		if _, seen := wantASN[las]; !seen {
+			wantASN[las] = false
+		}
 		if e, _ := w.DUT.EstablishedFSM(q); e != nil {
-			anyEst = true
+			wantASN[las] = true
+			if q.Cfg.RRClient {
+				wantCID[cidOf] = true
+			}
 		}
 	}
-	if !anyEst && w.DUT.VRF.IsContributingASN(w.Plan.DUT.LocalAS) {
-		w.Env.Violate("C07", "asn_contribution_survives", "no session is Established but local ASN %d is still reported as contributing", w.Plan.DUT.LocalAS)
+	for _, asn := range sortedU32(wantASN) {
+		got := w.DUT.VRF.IsContributingASN(asn)
+		if got && !wantASN[asn] {
+			w.Env.Violate("C07", "asn_contribution_survives", "no Established session uses local ASN %d but it is still reported as contributing to loop detection", asn)
+		}
+		if !got && wantASN[asn] {
+			w.Env.Violate("C07", "asn_contribution_lost", "an Established session uses local ASN %d but it no longer contributes to loop detection (another session's teardown withdrew it)", asn)
+		}
+	}
+	for _, cid := range sortedU32(wantCID) {
+		got := w.DUT.VRF.IsContributingClusterID(cid)
+		if got && !wantCID[cid] {
+			w.Env.Violate("C07", "cluster_contribution_survives", "no Established route-reflector-client session but cluster ID %d is still reported as contributing to loop detection", cid)
+		}
+		if !got && wantCID[cid] {
+			w.Env.Violate("C07", "cluster_contribution_lost", "a route-reflector-client session is Established but cluster ID %d no longer contributes to loop detection", cid)
+		}
 	}
 	if old != nil {
 		w.Data[fmt.Sprintf("c07:oldconn:%d", pi)] = old
@@ -625,4 +659,13 @@ func kindOf(dut DUTCfg, pc PeerCfg) string {
 		return "eBGP RS client"
 	}
 	return "eBGP"
+}
+
+func sortedU32(m map[uint32]bool) []uint32 {
+	var ks []uint32
+	for k := range m {
+		ks = append(ks, k)
+	}
+	sort.Slice(ks, func(i, j int) bool { return ks[i] < ks[j] })
+	return ks
 }
